@@ -109,9 +109,11 @@ def design(shape, f1, f2=None, full_rank=True):
     elif shape == "f1:f2":
         if f1.kind == "cat" and f2.kind == "cat":
             if full_rank:
-                # 1 + f1:f2 spans {1, f1, f2, f1:f2}; the intercept is there already.  Documented outcome (same as
-                # patsy / R): the main effect of the LAST factor in reduced form, then the first factor reduced
-                # within every level of the last one.
+                # 1 + f1:f2 spans {1, f1, f2, f1:f2}; the intercept is there already.  Outcome of the documented
+                # (patsy) rank rule: the main effect of the LAST factor in reduced form, then the first factor
+                # reduced within every level of the last one.  (This one shape is cross-checked against the
+                # implementation's structure on x,y,z x p,q in selftest(), not pinned from a printed doc output;
+                # C03 owns the rank rule -- here it only has to name the columns so that values can be compared.)
                 cols += f2.cols(reduced=True)
                 cols += interact(f1.cols(reduced=True), f2.cols(reduced=False))
             else:
